@@ -305,10 +305,28 @@ def run_scenario(run: Run, scen: dict, rng: random.Random):
         except leanmodel.ModelError as e:
             raise RuntimeError(f"model evaluation failed: {e}")
         run.evaluations += 1
+        sens = None
+        if mode == "float":
+            # conditioning probe: the model on leaves perturbed by a relative 1e-9 (two sign patterns); an algorithm
+            # in float64 cannot be expected to agree better than (output change / 1e-9) x a few hundred ulps
+            sens = np.zeros(len(vals))
+            for pat in (lambda i: 1.0, lambda i: -1.0 if i % 2 else 1.0):
+                th2 = {u: [x * (1.0 + 1e-9 * pat(i)) for i, x in enumerate(vs_)] for u, vs_ in theta.items()}
+                try:
+                    _, _, vals2 = d.param(expr, th2)
+                    dv = np.array([abs(float(a) - float(b)) for a, b in zip(vals2, vals)])
+                    dv[~np.isfinite(dv)] = 0.0
+                    sens = np.maximum(sens, dv / 1e-9)
+                except leanmodel.ModelError:
+                    pass
         if symshape != list(s["shape"]) or shape != list(s["shape"]):
             run.violation("model-shape", scen, f"model shape {shape}/{symshape} vs {s['shape']}", no_failing_input=True, broken="correspondence POp.shape")
             return
         got = yn[f].reshape(-1)
+        vmax = 1.0
+        if mode == "float":
+            fin = [abs(float(v_)) for v_ in vals if np.isfinite(float(v_))]
+            vmax = max(fin) if fin else 1.0
         for j, (g, e) in enumerate(zip(got, vals)):
             if mode == "rat":
                 gg = float(np.real(g))
@@ -330,7 +348,9 @@ def run_scenario(run: Run, scen: dict, rng: random.Random):
                 # (and torch's softplus switches to the identity above 20): 1e-9 for one such operator, up to 1e-6
                 nt = sum(1 for o_ in graph_ops(s["graph"]) if o_ in TRANSCENDENTAL)
                 rtol = min(1e-6, 1e-9 * 30 ** max(0, nt - 1))
-                ok = (gg == ee) or abs(gg - ee) <= rtol * abs(ee) + 1e-12
+                # plus an absolute term: x - lse(x) style cancellations leave absolute errors of a few ulps of the
+                # largest intermediate, whatever the size of the entry
+                ok = (gg == ee) or abs(gg - ee) <= rtol * abs(ee) + 1e-10 * max(1.0, vmax) + (500 * 2.3e-16 * sens[j] if sens is not None else 0.0)
                 if np.isnan(gg) and np.isnan(ee):
                     ok = True  # outside the domain of the operator (log of a negative entry) in both
                     run.feature("outside_domain_in_both", True)
